@@ -1180,6 +1180,10 @@ def compare_history(ctx, rec, replies):
             if k[0] == "attic":
                 for f in ("remotes", "tags", "url"):
                     a.pop(f), b.pop(f)
+            if ev["kind"] != "dev":
+                # removing a nested (expendable) directory changes what `git status` of the clone around it shows
+                for f in ("dirty", "untracked"):
+                    a.pop(f), b.pop(f)
             if a != b:
                 ctx.disagree("clone state after %s (heads, HEAD, remotes, tags, dirty, untracked)" % ev["kind"],
                              dict(case, loc=str(k)), a, b)
